@@ -7,6 +7,7 @@ package in_toto
 
 import (
 	"crypto/x509"
+	"crypto/x509/pkix"
 	"errors"
 	"io"
 	"strconv"
@@ -312,3 +313,29 @@ func vhForeignScenario(nl, withCerts int, sublayouts bool) (Layout, map[string]m
 }
 
 func init() { vhRegister("vh_C02_foreignstep", vh_C02_foreignstep) }
+
+// vh_C02_certroute: the certificate route end to end — the real VerifyLinkSignatureThesholds, GetCertificate,
+// Step.CheckCertConstraints, CertificateConstraint.Check and checkCertConstraint over a model certificate
+// (X.509 parsing and chain building are oracles).  One step without pubkeys and one constraint on the DNS
+// names; the link of a certificate holder counts iff the certificate loads, chains, its DNS names are exactly
+// the listed ones and the signature verifies.
+// a = {#DNS names of the constraint, #DNS names of the certificate}
+func vh_C02_certroute(a []int) {
+	vhVerifyCalls = 0
+	vhRootPool, vhIntermPool = x509.NewCertPool(), x509.NewCertPool()
+	cdns := vhAttrList("c.dns", a[0])
+	dns := vhAttrList("cert.dns", a[1])
+	vhParseErr, vhParsedObj = false, &x509.Certificate{Subject: pkix.Name{CommonName: "a"}, DNSNames: dns}
+	step := Step{Type: "step", Threshold: 1, SupplyChainItem: SupplyChainItem{Name: "s1"},
+		CertificateConstraints: []CertificateConstraint{{CommonName: "*", DNSNames: cdns, Emails: []string{"*"}, Organizations: []string{"*"}, Roots: []string{"*"}, URIs: []string{"*"}}}}
+	layout := Layout{Type: "layout", Steps: []Step{step}, Keys: map[string]Key{}, RootCas: map[string]Key{"r1": {KeyID: "r1"}}}
+	m := &vhMeta{tag: "L0", payload: Link{Type: "link", Name: "s1"}, sigs: []Signature{{KeyID: vhFID[0], Sig: "00", Certificate: vhFCert[0]}}}
+	md := map[string]map[string]Metadata{"s1": {vhFID[0]: m}}
+	_, err := VerifyLinkSignatureThesholds(layout, md, vhRootPool, vhIntermPool)
+	vObserve("certroute", err == nil)
+	want := vAnd(vAnd(vUFBool("loads", vhFCert[0]), vUFBool("chain-ok", "a")), vAnd(vspecAttr(cdns, dns), vUFBool("valid", "L0", "0", vhFPub[0])))
+	vAssert("C02.certificate-holder-counts-iff-the-certificate-meets-the-step-constraint-and-the-signature-verifies", (err == nil) == want)
+	vReach("C02.end")
+}
+
+func init() { vhRegister("vh_C02_certroute", vh_C02_certroute) }
